@@ -174,7 +174,15 @@ template<typename TT> struct TLUnionFam {
   static Cfg gen_cfg(Rng& r) { return gen_tcfg(r); }
   static std::string cfg_str(const Cfg& c) { return tcfg_str(c); }
   static void construct(void* mem, const Cfg& c, Arena* a, Rng& r) { const TCfg v = tcfg_variant(c, r, false); TT::make_union(mem, v, r.coin() ? c.lg_k1 : c.lg_k2, a); }
-  static void mutate(Obj& o, const Cfg& c, Rng& r, Arena* scratch) { feed_setop<TT>(o, c, r, scratch, name()); }
+  static void mutate(Obj& o, const Cfg& c, Rng& r, Arena* scratch) {
+    if (r.chance(0.08)) {   // feed the union its own result (a separate object holding the same entries): safety only
+      auto res = o.get_result(r.coin());
+      if (r.coin()) o.update(res); else o.update(std::move(res));
+      xcount(std::string(name()) + ".update_with_own_result");
+      return;
+    }
+    feed_setop<TT>(o, c, r, scratch, name());
+  }
   static std::string readout(const Obj& o, const Cfg&) {
     auto res = o.get_result(true);
     return thetalike_readout<typename TT::CompactSk, TT>(res) + " image=" + TT::image(res);
